@@ -460,15 +460,13 @@ async fn write_provision_state(
         STATUS_TAG_TMP_SEQ.fetch_add(1, std::sync::atomic::Ordering::Relaxed)
     ));
     match std::fs::write(&status_file, failed_state_message.as_bytes()) {
-        Ok(_) => {
-            match std::fs::rename(&status_file, provision_dir.join(STATUS_TAG_FILE_NAME)) {
-                Ok(_) => {}
-                Err(e) => {
-                    logger::write_error(format!("Failed to rename status file with error: {e}"));
-                    _ = std::fs::remove_file(&status_file);
-                }
+        Ok(_) => match std::fs::rename(&status_file, provision_dir.join(STATUS_TAG_FILE_NAME)) {
+            Ok(_) => {}
+            Err(e) => {
+                logger::write_error(format!("Failed to rename status file with error: {e}"));
+                _ = std::fs::remove_file(&status_file);
             }
-        }
+        },
         Err(e) => {
             logger::write_error(format!("Failed to write temp status file with error: {e}"));
         }
